@@ -405,9 +405,9 @@ def xpub_text(K, chain_code: bytes) -> str:
 def psbt_input_case(draw, position, n_outputs):
     way = draw(st.sampled_from(["output", "internal", "derived", "leaf"]))
     updater = draw(st.sampled_from(["manual", "descriptor"]))
+    # distinct keys: BIP373 keys a nonce and a partial signature by participant key and cannot carry two signers of one key, and whether a role refuses such
+    # an input (and at which step) is not what the property is about; repeated keys go through the sessions of musig2_sessions
     keys = draw(st.lists(scalar(), min_size=1, max_size=4, unique=True))
-    if draw(rare(16)) and len(keys) < 4:  # BIP373 cannot carry two signers of one key: rare
-        keys.insert(draw(st.integers(0, len(keys))), keys[0])
     sighashes = [h for h in SIGHASHES if h is None or h & 3 != 3 or position < n_outputs]
     return {
         "way": way, "updater": updater, "keys": keys, "sort": draw(st.booleans()),
@@ -425,12 +425,13 @@ def psbt_input_case(draw, position, n_outputs):
 
 @st.composite
 def musig_psbt_case(draw):
+    # (BIP370: a v2 psbt has a transaction version of at least 2)
     n_out = draw(st.integers(1, 2))
     n_in = draw(st.integers(1, 2))
     return {
         "inputs": [draw(psbt_input_case(i, n_out)) for i in range(n_in)],
         "outputs": [{"amount": draw(st.integers(0, 500)), "script": draw(st.sampled_from(["0014" + "11" * 20, "5120" + "79be667ef9dcbbac55a06295ce870b07029bfcdb2dce28d959f2815b16f81798", "6a0401020304"]))} for _ in range(n_out)],
-        "psbt_version": draw(st.sampled_from([0, 2])), "tx_version": draw(st.sampled_from([1, 2, 3])), "lock_time": draw(st.sampled_from([0, 0, 499999999, 500000000])),
+        "psbt_version": (pv := draw(st.sampled_from([0, 2]))), "tx_version": draw(st.sampled_from([2, 3] if pv == 2 else [1, 2, 3])), "lock_time": draw(st.sampled_from([0, 0, 499999999, 500000000])),
         "copies": draw(st.booleans()), "serialize": draw(st.booleans()), "backend": draw(st.booleans()),
     }
 
@@ -609,9 +610,15 @@ def check_musig_psbt(case):
             aggnonce = m327.nonce_agg([by_key[pk] for pk in dict.fromkeys(plan["pks"])]) if len(set(plan["pks"])) == len(plan["pks"]) else None
             sess = PM.session_context(psbt, i, plan["agg33"], leaf_hash=plan["leaf_hash"])
             c = sess.context
-            want = (list(plan["pks"]), list(plan["tweaks"]), list(plan["flags"]), msg)
-            if (list(c.pub_keys), list(c.tweaks), list(c.is_xonly), c.msg) != want:
-                bad = [n for n, a, b in zip(("pub_keys", "tweaks", "is_xonly", "msg"), (list(c.pub_keys), list(c.tweaks), list(c.is_xonly), c.msg), want) if a != b]
+            # the session is compared by what it means: participants in order, message, and the key / sign / tweak accumulators the tweaks add up to
+            # (BIP373 does not say whether consecutive plain tweaks are kept apart or summed)
+            try:
+                lib_acc = m327.key_agg_and_tweak([bytes(k) for k in c.pub_keys], [bytes(t) for t in c.tweaks], [bool(x) for x in c.is_xonly])
+            except ValueError:
+                lib_acc = None
+            want = (list(plan["pks"]), m327.key_agg_and_tweak(plan["pks"], plan["tweaks"], plan["flags"]), msg)
+            if (list(c.pub_keys), lib_acc, c.msg) != want:
+                bad = [n for n, a, b in zip(("pub_keys", "tweaks", "msg"), (list(c.pub_keys), lib_acc, c.msg), want) if a != b]
                 raise Violation(f"musig_psbt:session-differs-from-model:{inp['way']}:{'+'.join(bad)}", f"sighash={inp['sighash']} lib_msg={c.msg.hex()} ref_msg={msg.hex()}")
             if aggnonce is not None and c.agg_nonce != aggnonce:
                 raise Violation("musig_psbt:session-aggnonce", "")
@@ -795,7 +802,7 @@ def check_ell(case):
             if tt is None:
                 continue
             n_t += 1
-            if p % 4 == 3 and tt != ref_t:
+            if is_k1 and tt != ref_t:  # which of the two roots is returned is pinned by BIP324's vectors on secp256k1 only; elsewhere the inverse property below is what counts
                 raise Violation(f"ellswift:xswiftec-inv-differs-from-BIP324:case={c}", f"{case['curve']} x={A[0]:x} u={iu:x}")
             if m324.xswiftec(iu, tt, p, b_) != A[0] or ellswift._xswiftec_var(iu, tt, ec) != A[0]:
                 raise Violation(f"ellswift:xswiftec-inv-is-not-an-inverse:case={c}", f"{case['curve']} x={A[0]:x} u={iu:x} t={tt:x}")
@@ -834,7 +841,7 @@ def check_ell(case):
         try:
             ellswift.xdh(enc_a, enc_b, a, 2, ec)
             raise Violation("ellswift:party-2-answered", "")
-        except BTClibValueError:
+        except REFUSAL:
             pass
     return Outcome(True, tuple(tags))
 
@@ -889,8 +896,6 @@ def check_ecies(case):
     enc, dec = Counting(aes_encrypt), Counting(aes_decrypt)
     with backend(case["backend"]):
         armor = ecies.encrypt(msg, pub, enc, eph_prv_key=eph, magic=magic)
-        if enc.calls != 1:
-            raise Violation("ecies:encrypt-callback-count", str(enc.calls))
         raw = base64.b64decode(armor, validate=True)
         if eph is not None:
             want = kdf_ref.bie1_encrypt(msg, cb(fastec.mul(eph, B)), cb(fastec.mul(eph, fastec.G)), aes_encrypt, magic)
@@ -905,7 +910,7 @@ def check_ecies(case):
         if not readable:
             raise Violation(f"ecies:an-Electrum-recipient-cannot-read-the-envelope:{bk}", f"armor={armor[:120]}")
         got = ecies.decrypt(armor, b, dec, magic=magic)
-        if got != msg or dec.calls != 1:
+        if got != msg:
             raise Violation(f"ecies:recipient-decrypts-something-else:{bk}", f"len={len(msg)} calls={dec.calls}")
         t = case["tamper"]
         dec2 = Counting(aes_decrypt)
@@ -922,7 +927,6 @@ def check_ecies(case):
                 allowed = (BTClibRuntimeError,)  # ciphertext or MAC: the MAC check is what refuses
         elif t == "wrong-magic":
             bad = base64.b64encode((b"BIE2" if magic == b"BIE1" else b"BIE1") + raw[4:]).decode()
-            allowed = (BTClibValueError,)
         elif t == "drop-block":
             bad = base64.b64encode(raw[:-48] + raw[-32:]).decode()
         elif t == "append-block":
@@ -930,7 +934,7 @@ def check_ecies(case):
         elif t == "truncate-mac":
             bad = base64.b64encode(raw[:-1]).decode()
         elif t == "whitespace":
-            bad, allowed = "  " + armor + "\n", ()
+            bad = "  " + armor + "\n"
         elif t == "non-canonical-base64":
             if not armor.endswith("="):
                 return Outcome(True, (t + "-not-applicable", bk))
@@ -938,7 +942,6 @@ def check_ecies(case):
             pos = len(armor.rstrip("=")) - 1
             alphabet = "ABCDEFGHIJKLMNOPQRSTUVWXYZabcdefghijklmnopqrstuvwxyz0123456789+/"
             bad = armor[:pos] + alphabet[alphabet.index(armor[pos]) ^ 1] + armor[pos + 1 :]
-            allowed = (BTClibValueError,)
         if t != "none":
             try:
                 out = ecies.decrypt(bad, key, dec2, magic=magic)
@@ -946,9 +949,10 @@ def check_ecies(case):
                 out = None
             except REFUSAL as e:
                 raise Violation(f"ecies:{t}:refused-with-another-class:{type(e).__name__}", str(e)[:200]) from e
-            if t == "whitespace":
-                if out != msg:
-                    raise Violation("ecies:surrounding-whitespace", "")
+            if t in ("whitespace", "non-canonical-base64"):
+                # another spelling of the same authenticated bytes: a reader may forgive it or refuse it, and what it reads is the message
+                if out is not None and out != msg:
+                    raise Violation(f"ecies:{t}:decrypts-to-something-else", f"-> {out!r:.80}")
             else:
                 if out is not None:
                     raise Violation(f"ecies:{t}:decrypts", f"-> {out!r:.80}")
@@ -1328,9 +1332,11 @@ def check_sp(case):
                              ("scanner", lambda: sp.scan_transaction_outputs(wallets[0]["scan"], wallets[0]["B_spend"], outpoints, pub_keys, [bytes(32)], None))):
                 try:
                     r = fn()
+                except REFUSAL:
+                    continue
+                # BIP352: the sender fails, the scanner skips the transaction (refusing it or finding nothing in it)
+                if what == "sender" or r:
                     raise Violation(f"sp:zero-sum-answered:{what}:{bk}", repr(r)[:200])
-                except BTClibValueError:
-                    pass
             return Outcome(True, tuple(tags))
         a_sum = sp.prv_key_sum(prv_keys)
         A_sum_m = None
@@ -1347,8 +1353,11 @@ def check_sp(case):
         keys = sp.output_keys(prv_keys, outpoints, addresses)
         if sorted(keys) != sorted(model_out):
             raise Violation(f"sp:output-keys-differ-from-BIP352:{bk}:repeated-scan-key={len({cb(r[0]) for r in recips}) < len(recips)}", f"lib={[k.hex() for k in keys]} ref={[k.hex() for k in model_out]}")
-        if sp.output_keys(prv_keys, outpoints, []) != []:
-            raise Violation("sp:no-recipient-no-output", "")
+        try:
+            if sp.output_keys(prv_keys, outpoints, []) != []:
+                raise Violation("sp:no-recipient-no-output", "")
+        except REFUSAL:
+            pass  # nobody to pay: refused or answered with no output
         # --- the transaction's taproot outputs: the payments and the decoys, in a drawn order
         decoys = [H(d) for d in case["decoys"] if H(d) not in keys]
         outs = keys + decoys
